@@ -151,16 +151,16 @@ package decorator
 //@ use nlast_hold(res(StopLossStrategy_Compute), len(res(StopLossStrategy_Compute)) - len(arg(ActionsToAnnotations, 0, 0)), len(res(StopLossStrategy_Compute)) - len(arg(ActionsToAnnotations, 0, 0)))
 //@ use nlast_skip(res(StopLossStrategy_Compute), arg(ActionsToAnnotations, 0, 0), len(res(StopLossStrategy_Compute)) - len(arg(ActionsToAnnotations, 0, 0)))
 
-// ---- generated constructor contracts (govc genctor; do not edit by hand) ----
-// what each New* function returns, read off its literal: fresh, pairwise separate sub-objects, fields equal to the
-// arguments / constants they are initialised with (transitively through nested constructors); proved, not assumed
+// constructors of the decorators: a fresh object wrapping exactly the strategy it was given (a decorator that
+// re-wraps, unwraps or replaces its inner strategy is a different function of the inner action stream)
 //@ func NewInverseStrategy
-//@ ensures[C06] "fresh-and-separate-objects" fresh(result)
+//@ ensures[C06,C07] "fresh-and-separate-objects" fresh(result)
+//@ ensures[C06,C07] "configured-as-given" result.InnerStrategy == innerStrategy
 
 //@ func NewNoLossStrategy
-//@ ensures[C06] "fresh-and-separate-objects" fresh(result)
+//@ ensures[C06,C07] "fresh-and-separate-objects" fresh(result)
+//@ ensures[C06,C07] "configured-as-given" result.InnertStrategy == innerStrategy
 
 //@ func NewStopLossStrategy
-//@ ensures[C06] "fresh-and-separate-objects" fresh(result)
-//@ ensures[C06] "configured-as-given" result.Percentage == percentage
-// ---- end of generated constructor contracts ----
+//@ ensures[C06,C07] "fresh-and-separate-objects" fresh(result)
+//@ ensures[C06,C07] "configured-as-given" result.Percentage == percentage && result.InnertStrategy == innerStrategy
